@@ -4,7 +4,8 @@
    Collectives are functions of the vector of per-rank contributions (MPI semantics, trusted), so a single
    model execution covers every arrival order of the ranks. *)
 From Coq Require Import List ZArith QArith Permutation.
-From EV Require Import Cluster Mpi MpiBase MpiIndex MpiKc MpiProofs MpiPam.
+From EV Require Import Cluster ClusterBase ClusterInv ClusterPam ClusterTop ClusterExample.
+From EV Require Import Mpi MpiBase MpiIndex MpiKc MpiProofs MpiPam MpiInv MpiWarm.
 Import ListNotations.
 
 (* ---- striped file loading: ranks load keys r, r+P, ...; together exactly all keys, each once *)
@@ -161,3 +162,154 @@ Example c14_example_run :
   map (convert_local 2 [2%nat; 1%nat]) [(0%nat, 0%nat); (0%nat, 1%nat)] = [Some 0%nat; Some 1%nat].
 Proof. vm_compute. repeat split. Qed.
 Print Assumptions c14_example_run.
+
+(* ======================================================================================= round 2
+   "the distributed k-medoids stage satisfies the same invariants as the serial one".
+   Inv is C01's consistency invariant (Proof/ClusterInv.v; spelt out by c01_invariant_meaning): centres are
+   distinct frames; every label is in [0,k); every distance is the metric distance to the assigned centre; no
+   centre is strictly closer; every centre frame carries its own label at distance 0.
+   "distinct points": zero self-distance, positive distance between different frames.
+   `assembled P lens ds g` = what every rank holds after the library's reassembly routines: *)
+Theorem c14_assembled_meaning : forall P lens ds g, assembled P lens ds g <->
+  (map (convert_local P lens) (dctr ds) = map Some (dcid ds) /\
+   assemble 0%nat P lens (map (map lab) (dloc ds)) = Some (map lab g) /\
+   assemble 0%Q P lens (map (map dist) (dloc ds)) = Some (map dist g) /\
+   assemble 0%nat P lens (map (map fid) (dloc ds)) = Some (seq 0 (sum_nat lens))).
+Proof. exact assembled_meaning. Qed.
+Print Assumptions c14_assembled_meaning.
+
+(* a proposal (cluster id, (owner rank, local index)) is in range *)
+Theorem c14_step_in_range_meaning : forall P lens k cid r i, step_in_range P lens k (cid, (r, i)) <->
+  ((cid < k)%nat /\ (r < P)%nat /\ (i < length (local_ids P r lens))%nat).
+Proof. exact step_in_range_meaning. Qed.
+Print Assumptions c14_step_in_range_meaning.
+
+(* ---- k-medoids stage, explicit proposals: from ANY consistent distributed state (local arrays = the scatter of
+        a state satisfying Inv, centre pairs naming its centres), ANY number of distributed PAM steps with ANY
+        in-range proposals runs without error, and the state assembled from the ranks satisfies Inv, has the
+        same number of centres, and its cost (sum of squares, and the code's own striped mean of squares)
+        is not larger; ties allowed; every world size 1 <= P <= number of trajectories *)
+Theorem c14_pam_steps_mpi_inv : forall D P lens,
+  (forall f, D f f == 0) /\ (forall c f, c <> f -> 0 < D c f) -> (1 <= P)%nat -> (P <= length lens)%nat ->
+  forall cp cids g steps,
+  Inv D (sum_nat lens) (cids, g) -> ctrs_ok P lens cp cids ->
+  Forall (step_in_range P lens (length cids)) steps ->
+  exists ds' g', pam_steps_mpi D steps (mkds cp cids (scatter P lens g)) = Some ds' /\
+    assembled P lens ds' g' /\ Inv D (sum_nat lens) (dcid ds', g') /\
+    length (dcid ds') = length cids /\ length (dctr ds') = length cp /\
+    sumsq g' <= sumsq g /\ sq_cost (dloc ds') <= sq_cost (scatter P lens g).
+Proof. exact pam_steps_mpi_inv. Qed.
+Print Assumptions c14_pam_steps_mpi_inv.
+
+(* ---- k-medoids stage as the code runs it: sweeps over cid = 0..k-1 whose proposals come from rank 0's draws
+        through randind over the per-rank member lists (None = a draw outside [0, members), which
+        RandomState.randint never returns) *)
+Theorem c14_kmedoids_mpi_inv : forall D P lens,
+  (forall f, D f f == 0) /\ (forall c f, c <> f -> 0 < D c f) -> (1 <= P)%nat -> (P <= length lens)%nat ->
+  forall cp cids g sweeps ds',
+  Inv D (sum_nat lens) (cids, g) -> ctrs_ok P lens cp cids ->
+  Forall (fun s => (length s <= length cids)%nat) sweeps ->
+  kmedoids_mpi D sweeps (mkds cp cids (scatter P lens g)) = Some ds' ->
+  exists g', assembled P lens ds' g' /\ Inv D (sum_nat lens) (dcid ds', g') /\
+    length (dcid ds') = length cids /\ length (dctr ds') = length cp /\
+    sumsq g' <= sumsq g /\ sq_cost (dloc ds') <= sq_cost (scatter P lens g).
+Proof. exact kmedoids_mpi_inv. Qed.
+Print Assumptions c14_kmedoids_mpi_inv.
+
+(* ---- distributed k-centers, tie-free data: the assembled result is the serial result and satisfies Inv
+        (refinement + C01's kcenters_cold_inv); with the triangle shortcut the metric must be symmetric and
+        satisfy the triangle inequality (ti_ok) *)
+Theorem c14_kc_mpi_inv : forall D P lens nclu cutoff ti L rest,
+  (forall f, D f f == 0) /\ (forall c f, c <> f -> 0 < D c f) ->
+  (1 <= P)%nat -> (P <= length lens)%nat -> lens = L :: rest -> (1 <= L)%nat ->
+  ti_ok D ti -> 0 <= cutoff ->
+  nonempty_locals P lens (seq 0 (sum_nat lens)) ->
+  tie_free_run D (S (sum_nat lens)) nclu cutoff ti (kc_first D (sum_nat lens)) ->
+  exists ds, kcenters_mpi D P lens nclu cutoff ti = Some ds /\
+    let s' := kcenters_cold D nclu cutoff ti (sum_nat lens) in
+    dcid ds = fst s' /\ rep D P lens ds (snd s') /\ assembled P lens ds (snd s') /\
+    Inv D (sum_nat lens) (dcid ds, snd s').
+Proof. exact kc_mpi_inv. Qed.
+Print Assumptions c14_kc_mpi_inv.
+
+(* ---- k-hybrid under MPI = distributed k-centers, then the distributed k-medoids stage: the assembled result
+        satisfies Inv, has as many centres as k-centers found, and costs no more than the k-centers result *)
+Theorem c14_hybrid_mpi_inv : forall D P lens nclu cutoff L rest sweeps ds',
+  (forall f, D f f == 0) /\ (forall c f, c <> f -> 0 < D c f) ->
+  (1 <= P)%nat -> (P <= length lens)%nat -> lens = L :: rest -> (1 <= L)%nat -> 0 <= cutoff ->
+  nonempty_locals P lens (seq 0 (sum_nat lens)) ->
+  tie_free_run D (S (sum_nat lens)) nclu cutoff false (kc_first D (sum_nat lens)) ->
+  let s0 := kcenters_cold D nclu cutoff false (sum_nat lens) in
+  Forall (fun s => (length s <= length (fst s0))%nat) sweeps ->
+  hybrid_mpi D P lens nclu cutoff sweeps = Some ds' ->
+  exists g', assembled P lens ds' g' /\ Inv D (sum_nat lens) (dcid ds', g') /\
+    length (dcid ds') = length (fst s0) /\ sumsq g' <= sumsq (snd s0).
+Proof. exact hybrid_mpi_inv. Qed.
+Print Assumptions c14_hybrid_mpi_inv.
+
+(* ---- the round-2 hypotheses are satisfiable: points at 0, 10, 3, 4 on a line, two trajectories of two frames on
+        two ranks, k = 2; the hybrid run accepts a swap (medoid 0 moves from frame 0 to frame 2, owned by rank 1) *)
+Example c14_example_hybrid :
+  ((forall f, Dline pos4 f f == 0) /\ (forall c f, c <> f -> 0 < Dline pos4 c f)) /\
+  nonempty_locals 2 [2%nat; 2%nat] (seq 0 4) /\
+  tie_free_run (Dline pos4) 5 (Some 2%nat) 0 false (kc_first (Dline pos4) 4) /\
+  option_map (fun ds => (dctr ds, dcid ds, map (map lab) (dloc ds), map (map dist) (dloc ds)))
+             (hybrid_mpi (Dline pos4) 2 [2%nat; 2%nat] (Some 2%nat) 0 [[2%nat; 0%nat]; [1%nat; 0%nat]])
+    = Some ([(1%nat, 0%nat); (0%nat, 1%nat)], [2%nat; 1%nat], [[0%nat; 1%nat]; [0%nat; 0%nat]], [[3#1; 0]; [0; 1#1]]).
+Proof.
+  split; [exact pos4_metric|]. split; [|split].
+  - unfold nonempty_locals. vm_compute. repeat constructor; discriminate.
+  - vm_compute. split; [|exact I].
+    exists (mkfr 1 0 (10#1)), [mkfr 0 0 0], [mkfr 2 0 (3#1); mkfr 3 0 (4#1)]. split; [reflexivity|].
+    repeat constructor.
+  - vm_compute. reflexivity.
+Qed.
+Print Assumptions c14_example_hybrid.
+
+(* ---- MPI warm start (kcenters(init_centers = frames, mpi_mode=True)): on ANY consistent state the centre pairs
+        the ranks agree on (per label: first rank holding a frame of minimal distance, that rank's first such
+        frame) convert to exactly the centre list, in order -- the distributed form of
+        c01_center_finder_recovers_centers; ties in the data allowed *)
+Theorem c14_warm_pairs_name_centres : forall D, (forall c f, c <> f -> 0 < D c f) ->
+  forall P lens, (1 <= P)%nat -> forall cs g, Inv D (sum_nat lens) (cs, g) ->
+  map (convert_local P lens) (warm_ctr_pairs (length cs) (scatter P lens g)) = map Some cs.
+Proof. exact warm_pairs_ok. Qed.
+Print Assumptions c14_warm_pairs_name_centres.
+
+(* ---- the whole warm-started distributed run, tie-free data, init = non-empty list of distinct frames: it
+        yields after reassembly the serial warm-started result (centres as global ids, labels, distances), which
+        satisfies Inv and keeps the supplied centres as the first centres *)
+Theorem c14_kc_warm_mpi_equals_serial : forall D P lens init nclu cutoff ti,
+  (forall f, D f f == 0) /\ (forall c f, c <> f -> 0 < D c f) ->
+  (1 <= P)%nat -> (P <= length lens)%nat -> init_ok (sum_nat lens) init ->
+  ti_ok D ti -> 0 <= cutoff ->
+  nonempty_locals P lens (seq 0 (sum_nat lens)) ->
+  tie_free_run D (S (sum_nat lens)) nclu cutoff ti (nearest_state D init (sum_nat lens)) ->
+  exists ds, kcenters_warm_mpi D P lens init nclu cutoff ti = Some ds /\
+    let s' := kcenters_warm D nclu cutoff ti init (sum_nat lens) in
+    dcid ds = fst s' /\ assembled P lens ds (snd s') /\ Inv D (sum_nat lens) (dcid ds, snd s') /\
+    (exists ext, dcid ds = init ++ ext).
+Proof. exact warm_mpi_assembled_equals_serial. Qed.
+Print Assumptions c14_kc_warm_mpi_equals_serial.
+
+(* ---- satisfiable: the four points above, initial centres = frames 3 and 1 (owned by ranks 1 and 0), k = 3 *)
+Example c14_example_warm :
+  init_ok 4 [3%nat; 1%nat] /\
+  tie_free_run (Dline pos4) 5 (Some 3%nat) 0 false (nearest_state (Dline pos4) [3%nat; 1%nat] 4) /\
+  option_map (fun ds => (dctr ds, dcid ds, map (map lab) (dloc ds), map (map dist) (dloc ds)))
+             (kcenters_warm_mpi (Dline pos4) 2 [2%nat; 2%nat] [3%nat; 1%nat] (Some 3%nat) 0 false)
+    = Some ([(1%nat, 1%nat); (0%nat, 1%nat); (0%nat, 0%nat)], [3%nat; 1%nat; 0%nat],
+            [[2%nat; 1%nat]; [0%nat; 0%nat]], [[0; 0]; [1#1; 0]]) /\
+  fst (kcenters_warm (Dline pos4) (Some 3%nat) 0 false [3%nat; 1%nat] 4) = [3%nat; 1%nat; 0%nat].
+Proof.
+  split; [|split; [|split]].
+  - split; [discriminate|]. split.
+    + constructor; [intros [H|[]]; discriminate|]. constructor; [intros []|constructor].
+    + intros c [<-|[<-|[]]]; lia.
+  - vm_compute. split; [|exact I].
+    exists (mkfr 0 0 (4#1)), [], [mkfr 1 1 0; mkfr 2 0 (1#1); mkfr 3 0 0]. split; [reflexivity|].
+    repeat constructor.
+  - vm_compute. reflexivity.
+  - vm_compute. reflexivity.
+Qed.
+Print Assumptions c14_example_warm.
